@@ -65,20 +65,21 @@ Theorem lcd_body_tree c d d' : lcd c d = Ok d' ->
               d_regions d' = retained_of out /\ d_initials d' = keep_styles c (d_initials d) /\
               obody_rel (body_rel c (replaced_of out)) (d_body d) (d_body d').
 Proof.
-  intros H. apply lcd_ok_inv in H as [out [body4 [Ho [Hb ->]]]]. exists out. split; [exact Ho|]. split; [reflexivity|]. split; [reflexivity|].
-  cbn [d_body]. unfold obody_rel.
-  destruct (d_body d) as [b|]; cbn [option_map] in *.
+  intros H. apply lcd_ok_inv in H as [out [Ho ->]]. exists out. split; [exact Ho|]. split; [reflexivity|]. split; [reflexivity|].
+  cbn [d_body]. unfold obody_rel, body_pipeline. cbv zeta.
+  destruct (d_body d) as [b|]; cbn [option_map].
   - set (al := replaced_of out) in *.
     set (b1 := clear_elem (map fst al) (redirect_elem al (anim_elem (style_elem c b)))) in *.
     assert (elem_rel (fun a a' => a' = body_base c al a) b b1) as F1.
     { unfold b1, clear_elem, redirect_elem, anim_elem, style_elem. rewrite !map_attrs_compose. apply elem_rel_map_attrs. }
-    assert (exists b4, body4 = Some b4 /\
+    assert (exists b4, (match c_bg c with Some col => Some (apply_bg col b1) | None => Some b1 end) = Some b4 /\
               elem_rel (fun a a4 => a4 = body_base c al a \/ exists col, c_bg c = Some col /\ e_kind a = KP /\
-                                                             a4 = set_style (body_base c al a) p_BackgroundColor (VColor col)) b b4) as [b4 [E4 F4]]; [|subst body4].
-    { destruct (c_bg c) as [col|]; inversion Hb; subst; eexists; (split; [reflexivity|]).
+                                                             a4 = set_style (body_base c al a) p_BackgroundColor (VColor col)) b b4) as [b4 [E4 F4]].
+    { destruct (c_bg c) as [col|]; eexists; (split; [reflexivity|]).
       - pose proof (elem_rel_comp _ _ _ _ _ F1 (elem_rel_apply_bg col b1)) as F. eapply elem_rel_impl; [|exact F].
         intros a a4 [x [-> [-> | [Hk ->]]]]; [left; reflexivity|]. right. exists col. rewrite kind_body_base in Hk. auto.
       - eapply elem_rel_impl; [|exact F1]. intros a a4 ->. left. reflexivity. }
+    rewrite E4.
     assert (exists b5, (match c_color c with Some col => option_map (set_root_style p_Color (VColor col)) (Some b4) | None => Some b4 end) = Some b5 /\
               elem_rel (fun a4 a5 => a5 = a4 \/ exists col, c_color c = Some col /\ a5 = set_style a4 p_Color (VColor col)) b4 b5) as [b5 [E5 F5]].
     { destruct (c_color c) as [col|]; cbn [option_map]; eexists; (split; [reflexivity|]).
@@ -93,5 +94,5 @@ Proof.
     rewrite E6.
     pose proof (elem_rel_comp _ _ _ _ _ (elem_rel_comp _ _ _ _ _ F4 F5) F6) as F.
     eapply elem_rel_impl; [|exact F]. intros a a' [a5 [[a4 [H4 H5]] H6]]. exists a4, a5. auto.
-  - destruct (c_bg c); [discriminate|]. inversion Hb; subst. destruct (c_color c), (c_pta c); exact I.
+  - destruct (c_bg c), (c_color c), (c_pta c); exact I.
 Qed.
